@@ -1,6 +1,14 @@
 package main
 
 import (
+	"encoding/json"
+	"fmt"
+	"os"
+	"path/filepath"
+	"sort"
+	"time"
+
+	"verifh/cluster"
 	"verifh/common"
 )
 
@@ -9,8 +17,115 @@ type clusterEvidence struct {
 	extra map[string]any
 }
 
-func clusterChild() {}
+func clusterChild() {
+	var cfg cluster.RaftRun
+	if err := json.Unmarshal([]byte(os.Getenv("C08_CFG")), &cfg); err != nil {
+		panic(err)
+	}
+	cluster.RaftChild(cfg, os.Getenv("C08_OUT"), os.Getenv("C08_SCRATCH"))
+}
 
+// runClusters: real raftkvs clusters through bootstrap.NewServer/NewClient with a crash-stop of a minority;
+// the child evaluates the order-robust Raft monitors online at every commit point (H1) and at the quiescent point.
 func runClusters(r *common.Run, scratch string, distinct *common.Distinct, samples *common.SampleKeeper) clusterEvidence {
-	return clusterEvidence{extra: map[string]any{"runs": 0, "note": "not built yet"}}
+	n := r.Pick(2, 40)
+	ev := clusterEvidence{extra: map[string]any{}}
+	events, maxTerm, truncs, crashes, committed, unproductive := 0, 0, 0, 0, 0, 0
+	labels := map[string]int{}
+	race := os.Getenv("VERIF_RACE_BIN")
+	raceReports := 0
+	for i := 0; i < n && r.Violations() == 0; i++ {
+		rng := r.Rand(fmt.Sprintf("c08-cluster-%d", i))
+		ns := []int{3, 5, 3, 1, 3, 5}[i%6]
+		cfg := cluster.RaftRun{NS: ns, NC: 2 + rng.Intn(3), Persist: i%3 == 2, Seed: r.Seed*100 + int64(i), OpsPerClient: 25, Keys: 2, PutPct: 60,
+			Scale: 3, ReqTimeout: time.Duration(15+rng.Intn(30)) * time.Millisecond, Disrupt: time.Duration(rng.Intn(25)) * time.Microsecond, MaxWall: 40 * time.Second}
+		if ns >= 3 {
+			cfg.Crash = 1 + rng.Intn((ns-1)/2)
+			cfg.CrashAfter = 5 + rng.Intn(30)
+		}
+		exe := ""
+		env := []string{}
+		if race != "" && i%2 == 1 { // every second cluster under the race detector, all timeouts x6
+			exe = race
+			cfg.Scale = 8
+			cfg.MaxWall = 120 * time.Second
+			env = append(env, fmt.Sprintf("GORACE=halt_on_error=0 log_path=%s", filepath.Join(scratch, fmt.Sprintf("race-%d", i))))
+		}
+		dir := filepath.Join(scratch, fmt.Sprintf("cl-%d", i))
+		os.MkdirAll(dir, 0o755)
+		out := filepath.Join(dir, "report.jsonl")
+		buf, _ := json.Marshal(cfg)
+		res := common.RunChild(exe, "cluster", dir, append(env, "C08_CFG="+string(buf), "C08_OUT="+out, "C08_SCRATCH="+dir), cfg.MaxWall+60*time.Second)
+		recs, complete, _ := common.ReadJSONL(out)
+		if exe != "" {
+			matches, _ := filepath.Glob(filepath.Join(scratch, fmt.Sprintf("race-%d*", i)))
+			for _, m := range matches {
+				b, _ := os.ReadFile(m)
+				c := countRaces(string(b))
+				raceReports += c
+				if c > 0 {
+					r.Note("race detector: %d report(s) in cluster run %d: %s", c, i, firstRaceStack(string(b)))
+				}
+			}
+		}
+		if !complete || res.TimedOut {
+			r.Inconclusive(fmt.Sprintf("cluster run %d (NS=%d) incomplete: timedout=%v exit=%d %s", i, ns, res.TimedOut, res.ExitCode, tailStr(res.Output, 300)))
+			os.RemoveAll(dir)
+			continue
+		}
+		ev.runs++
+		for _, rec := range recs {
+			switch rec["kind"] {
+			case "violation":
+				r.Report(fmt.Sprint(rec["key"]), fmt.Sprint(rec["desc"]), map[string]any{"setting": "cluster", "cfg": cfg, "report": recs})
+			case "stats":
+				e := int(rec["commit_point_events"].(float64))
+				events += e
+				if t := int(rec["max_term"].(float64)); t > maxTerm {
+					maxTerm = t
+				}
+				truncs += int(rec["truncations"].(float64))
+				crashes += int(rec["crashed"].(float64))
+				committed += int(rec["entries_committed"].(float64))
+				if rec["completed_ops"].(float64) == 0 {
+					unproductive++
+				}
+				for l, c := range rec["labels"].(map[string]any) {
+					labels[l] += int(c.(float64))
+				}
+				var lh []string
+				for t, l := range rec["leaders_by_term"].(map[string]any) {
+					lh = append(lh, fmt.Sprintf("%s:%v", t, l))
+				}
+				sort.Strings(lh)
+				if ns >= 2 {
+					distinct.Add(fmt.Sprintf("cluster ns%d crash%v %v", ns, rec["crashed"], lh))
+				}
+				if i < 2 {
+					samples.Add(map[string]any{"setting": "cluster", "cfg": cfg, "stats": rec})
+				}
+			}
+		}
+		os.RemoveAll(dir)
+	}
+	ev.extra = map[string]any{"runs": ev.runs, "commit_point_events": events, "max_term": maxTerm, "log_truncations": truncs, "crashes": crashes,
+		"entries_committed": committed, "unproductive_runs": unproductive, "labels": labels, "race_reports_observed": raceReports}
+	return ev
+}
+
+func countRaces(s string) int {
+	n := 0
+	for i := 0; i+18 <= len(s); i++ {
+		if s[i:i+18] == "WARNING: DATA RACE" {
+			n++
+		}
+	}
+	return n
+}
+
+func firstRaceStack(s string) string {
+	if len(s) > 1200 {
+		return s[:1200]
+	}
+	return s
 }
